@@ -192,6 +192,7 @@ var c20RecipeTexts = []string{``, `true`, `name = "x"`, `flag`, `n > 1 sort by n
 	`anyOf(roles) = "a" sort by id`, `count(from kids where label = "x" sort by name) > 0`, `meta.x contains "a" skip 1`,
 	`not isEmpty(kids) and at != null sort by at, f, flag`, `sort by kids.label`, `true limit none`,
 	`true sort by id, name, n, f, flag, at`, `flag sort by kids.label, boss.name desc, id, id`,
+	`count(from kids where name = "x" sort by label) > 1.5 sort by n`, `count(from kids where n > 1) between 0.5 and 3.5`,
 	`n in [1, 2] sort by a, b`} // the last one does not parse (unknown symbols): skipped
 
 func (e *c20Emitter) recipes(thorough bool) {
